@@ -88,6 +88,12 @@ type Finding struct {
 	Class     string `json:"class,omitempty"`
 	Commit    string `json:"commit,omitempty"`
 	What      string `json:"what"`
+	// Replay names a recorded history (under findings/) that demonstrates a known finding which
+	// the generators do not produce; ReplaySignature is what that history fails with.  The check
+	// replays it at every run: while it still fails that way the finding is announced, once it
+	// holds (the defect is gone) nothing is printed.  It suppresses nothing else.
+	Replay          string `json:"replay,omitempty"`
+	ReplaySignature string `json:"replay_signature,omitempty"`
 }
 
 func env() []string {
@@ -722,6 +728,37 @@ func check(prop, tier string, seed int64, budget, workers, maxSeeds int, race, n
 	exit := 0
 	reported := 0
 	var knownLines []string
+	for i := range findings {
+		f := &findings[i]
+		if f.Property != prop || f.Status != "known" || f.Replay == "" {
+			continue
+		}
+		b, err := os.ReadFile(filepath.Join(verifDir, f.Replay))
+		if err != nil {
+			infra("known finding replay %s: %v", f.Replay, err)
+		}
+		var fsc map[string]interface{}
+		fd := json.NewDecoder(bytes.NewReader(b))
+		fd.UseNumber()
+		if err := fd.Decode(&fsc); err != nil {
+			infra("known finding replay %s: %v", f.Replay, err)
+		}
+		fw, fr := pick(f.Class)
+		fv := evalScenario(fw, prop, fsc, fr, 20)
+		if fv == nil || fv.OK || fv.Invalid {
+			continue // the recorded history holds now
+		}
+		if fv.Class == f.Class && fv.Signature == f.ReplaySignature {
+			line := fmt.Sprintf("KNOWN-FINDING: property=%s %s [recorded history %s still fails: %s]", prop, f.What, f.Replay, fv.Signature)
+			fmt.Println(line)
+			knownLines = append(knownLines, line)
+			continue
+		}
+		// it fails in another way than recorded: that is not the listed finding
+		fmt.Printf("violation class=%s signature=%q (history %s, recorded for a known finding, fails differently)\n  %s\n", fv.Class, fv.Signature, f.Replay, oneLine(fv.Detail, 600))
+		fmt.Printf("VIOLATION property=%s replay=%s\n", prop, filepath.Join(verifDir, f.Replay))
+		exit = 1
+	}
 	for _, k := range order {
 		g := groups[k]
 		if f := matchKnown(findings, prop, g.v.Class, g.v.Signature); f != nil {
